@@ -49,6 +49,19 @@ class StopRun(Exception):
     pass
 
 
+_helper_acc = {}
+
+
+def helper_accessors():
+    """accessor property name -> class of the helper it returns (2D variants; the introspected names of a class that does not
+    match the object simply raise AttributeError on both sides of the wall)"""
+    if not _helper_acc:
+        import autoarray as aa
+
+        _helper_acc.update({"derive_mask": aa.DeriveMask2D, "derive_indexes": aa.DeriveIndexes2D, "derive_grid": aa.DeriveGrid2D, "geometry": aa.Geometry2D})
+    return _helper_acc
+
+
 def content_tree(obj):
     """What an object IS (not what it has cached): array + mask for structures, public non-cached attributes otherwise."""
     if hasattr(obj, "_array") and hasattr(type(obj), "with_new_array"):
@@ -132,6 +145,7 @@ class PuritySim:
         self.node_counter = 0
         self.derived_from = {}
         self.quiescent = set()
+        self.read_history = {}
         self.cache_fp = {}
         self.sub_content = {}
         self.fresh_fills = []
@@ -506,6 +520,10 @@ class PuritySim:
         if prev is not None:
             self.stats["order_pairs"].add(f"{tn}.{prev}->{label}")
         self.last_read[target] = label
+        hist_t = self.read_history.setdefault(target, [])
+        if q["t"] in ("prop", "call", "userfunc", "path") and q not in hist_t:
+            hist_t.append(q)
+            del hist_t[:-6]
         if q["t"] == "call":
             # reader-after-writer: the nodes a call received, and the nodes its receiver was built from
             self.hot.extend(catalog.q_nodes(q))
@@ -680,6 +698,20 @@ class PuritySim:
                         last = rs.choice(cached) if (cached and rs.random() < 0.5) else rs.choice(names)
                         self.probe("fill_triggered_sibling_read")
                         return {"op": "read", "client": client["name"], "target": nid, "q": {"t": "path", "names": path.split(".") + [last]}}
+        # twin reads: the SAME question put to two objects of the same type one after the other - state that is keyed too
+        # coarsely (on bytes without shape, on a shared sub-object, on a module-level memo) answers the second with the first's value
+        if rs.random() < 0.1:
+            nbt = self.nodes_by_type()
+            multi = [t for t, ids_ in sorted(nbt.items()) if len(ids_) >= 2 and t != "Preloads"]
+            if multi:
+                t = rs.choice(multi)
+                a, b = rs.sample(nbt[t], 2)
+                if not (self.is_quiescent(a) or self.is_quiescent(b)):
+                    first = self.read_op(client, a, rs)
+                    if first is not None and not catalog.q_nodes(first["q"]):
+                        client["queue"].insert(0, dict(first, target=b))
+                        self.probe("twin_read")
+                        return first
         uniform = rs.random() < k["p_uniform"]
         pool = [n for n in (self.world.order if uniform else client["nodes"]) if n in env]
         if not pool:
@@ -700,6 +732,10 @@ class PuritySim:
             names += [rs.choice(all_names) for _ in range(3)] if all_names else []
             for nm in names:
                 client["queue"].append({"op": "read", "client": client["name"], "target": nid, "q": {"t": "prop", "name": nm}})
+            # history-aware derive: whatever was asked of the source before (property, query call, user function) is asked of
+            # the derived object too - state a derivation should not carry over need not live in a cached_property
+            for q_old in list(self.read_history.get(src, []))[-3:]:
+                client["queue"].append({"op": "read", "client": client["name"], "target": nid, "q": q_old})
             if nid not in client["nodes"]:
                 client["nodes"].append(nid)
             return {"op": "node", "client": client["name"], "node": spec}
@@ -730,6 +766,15 @@ class PuritySim:
                 return op
         if not names:
             return None
+        if rs.random() < 0.15:
+            # helper accessors (mask.derive_indexes.border_native, array.geometry.extent ...): properties that build a fresh helper
+            # object on every access, so they are neither nodes nor reachable through __dict__
+            acc = [(a, c) for a, c in helper_accessors().items() if a in names]
+            if acc:
+                a, cls = rs.choice(acc)
+                sub_names = catalog.prop_names(cls)
+                if sub_names:
+                    return {"op": "read", "client": client["name"], "target": target, "q": {"t": "path", "names": [a, rs.choice(sub_names)]}}
         if rs.random() < 0.2:
             # descend into a sub-object that is not a node itself and read one of ITS quantities (a path read)
             subs = [(pth, sub) for pth, sub in catalog.reachable_objects(obj, max_depth=3, limit=60)
